@@ -293,6 +293,17 @@ class SymListO:
         self.ekind = ekind
 
 
+class NestedListO:
+    """Python list (symbolic length n) of lists: lens: Array Int -> Int, elems: Array Int -> (Array Int -> PV)."""
+    kind = 'nestedlist'
+
+    def __init__(self, n, lens, elems, ekind):
+        self.n = n
+        self.lens = lens
+        self.elems = elems
+        self.ekind = ekind
+
+
 RArrSort = z3.ArraySort(Arm, Real)
 VKIND_SORT = {'rngstate': Rng, 'dict.keys': ASeq, 'dict.vals': RArrSort, 'real': Real, 'bool': Bool, 'optarm': OptArm, 'mat': Mat, 'rseq': RSeq, 'int': Int, 'arm': Arm,
               'opaque': Opaque, 'rng': Int, 'aseq': ASeq, 'iseq': ISeq}
